@@ -39,6 +39,9 @@ type Round struct {
 	// Old: after this round's arrivals, datagrams already read in EARLIER rounds (possibly under
 	// an earlier epoch) arrive again; indexes into the list of all datagrams read so far.
 	Old []int `json:"old,omitempty"`
+	// Late: after at least one key update, datagrams of the PREVIOUS round that never arrived there
+	// arrive now (delayed into a later epoch); indexes into the previous round's records.
+	Late []int `json:"late,omitempty"`
 }
 
 func eps(v string, w int, fromSrv bool) (c, s scen.EP) {
@@ -96,6 +99,13 @@ func run(c Case, r *pbt.R) {
 		W := effWindow(c.Window)
 		tag := uint32(0)
 		var readBefore [][]byte // datagrams whose payload was read in an earlier round
+		type prevRound struct {
+			recs     [][]byte
+			count    []int
+			latest   int
+			tagStart uint32
+		}
+		var prev *prevRound
 		for ri, rd := range c.Rounds {
 			for u := 0; u < rd.Updates && c.Variant == "v13"; u++ {
 				ctx, cancel := context.WithTimeout(context.Background(), time.Minute)
@@ -145,7 +155,7 @@ func run(c Case, r *pbt.R) {
 			mustCount := make([]int, rd.N) // 1 if the model says it MUST have been delivered
 			base := len(rcv.ReadLog())
 			hasRep, hasOOO, edge := false, false, false
-			prev := -1
+			prevIdx := -1
 			for _, idx := range rd.Seq {
 				if idx < 0 || idx >= rd.N {
 					continue
@@ -154,10 +164,10 @@ func run(c Case, r *pbt.R) {
 				if !first {
 					hasRep = true
 				}
-				if idx < prev {
+				if idx < prevIdx {
 					hasOOO = true
 				}
-				prev = idx
+				prevIdx = idx
 				if first {
 					behind := latest - idx
 					if idx > latest || behind < W {
@@ -190,6 +200,27 @@ func run(c Case, r *pbt.R) {
 				scen.Settle()
 				r.Class("old-round-replay")
 			}
+			// delayed datagrams of the previous round, which belongs to an older epoch after a key update
+			lateInjected := map[int]bool{}
+			lateMust := map[int]bool{}
+			lateCount := map[int]int{}
+			if c.Variant == "v13" && rd.Updates >= 1 && prev != nil {
+				for _, li := range rd.Late {
+					idx := li % len(prev.recs)
+					if prev.count[idx] != 0 || lateInjected[idx] {
+						continue
+					}
+					lateInjected[idx] = true
+					lateMust[idx] = idx > prev.latest || prev.latest-idx < W
+					before := len(rcv.ReadLog())
+					p.Net.Inject(snd.Name, rcv.Name, prev.recs[idx])
+					scen.Settle()
+					if len(rcv.ReadLog()) > before && idx > prev.latest {
+						prev.latest = idx
+					}
+					r.Class("late-arrival-from-older-epoch")
+				}
+			}
 			got := rcv.ReadLog()[base:]
 			count := make([]int, rd.N)
 			for _, g := range got {
@@ -200,6 +231,11 @@ func run(c Case, r *pbt.R) {
 				}
 				gi := int(binary.BigEndian.Uint32(g[8:]))
 				gt := binary.BigEndian.Uint32(g[4:])
+				if prev != nil && lateInjected[gi] && gt == prev.tagStart+uint32(gi)+1 { //nolint:gosec
+					lateCount[gi]++
+
+					continue
+				}
 				if gi < 0 || gi >= rd.N || gt != tag-uint32(rd.N)+uint32(gi)+1 { //nolint:gosec
 					if len(rd.Old) > 0 {
 						r.Failf("C06|delivered-twice|old-epoch-replay", "round %d (%s, updates=%d): a datagram already read in an earlier round was read again when it arrived a second time: %x", ri, c.Variant, rd.Updates, g)
@@ -223,16 +259,29 @@ func run(c Case, r *pbt.R) {
 					return
 				}
 			}
+			for idx := range lateInjected {
+				if lateCount[idx] > 1 {
+					r.Failf("C06|delivered-twice|late-older-epoch", "round %d: delayed record %d of the previous epoch delivered %d times", ri, idx, lateCount[idx])
+
+					return
+				}
+				if lateMust[idx] && lateCount[idx] == 0 {
+					r.Failf("C06|in-window-not-delivered|older-epoch", "round %d (%s W=%d, %d key updates since): record %d of the previous round arrived for the first time, within the window of its own epoch (newest accepted there: %d), and was not delivered", ri, c.Variant, W, rd.Updates, idx, prev.latest)
+
+					return
+				}
+			}
 			for i := range count {
 				if count[i] == 1 {
 					readBefore = append(readBefore, recs[i])
 				}
 			}
+			prev = &prevRound{recs: recs, count: count, latest: latest, tagStart: tag - uint32(rd.N)} //nolint:gosec
 			cls := []string{c.Variant, fmt.Sprintf("W=%d", W)}
 			if edge {
 				cls = append(cls, "window-edge")
 			}
-			r.Eval(fmt.Sprintf("%s|%d|%v|%d|%v|%v|%v", c.Variant, W, c.FromSrv, rd.N, rd.Seq, rd.Updates, rd.Old), hasRep && hasOOO, cls...)
+			r.Eval(fmt.Sprintf("%s|%d|%v|%d|%v|%v|%v|%v", c.Variant, W, c.FromSrv, rd.N, rd.Seq, rd.Updates, rd.Old, rd.Late), hasRep && hasOOO, cls...)
 		}
 	})
 	if berr != nil {
@@ -318,6 +367,9 @@ func gen(t *rapid.T) Case {
 		if i > 0 && rapid.IntRange(0, 2).Draw(t, "old") == 0 {
 			rd.Updates = rapid.SampledFrom([]int{0, 1, 1, 2, 3, 4, 4, 5, 8}).Draw(t, "updates")
 			rd.Old = rapid.SliceOfN(rapid.IntRange(0, 200), 1, 6).Draw(t, "oldidx")
+			if rapid.Bool().Draw(t, "late") {
+				rd.Late = rapid.SliceOfN(rapid.IntRange(0, 300), 1, 5).Draw(t, "lateidx")
+			}
 		}
 		c.Rounds = append(c.Rounds, rd)
 	}
